@@ -6,7 +6,7 @@ id=$1; shift
 prop=${id:0:3}
 checks=${@:-$prop}
 wt=/tmp/seedwork/wt_$id
-dst=/verif/seeded/$(echo $id | sed -e "s/r2/_2/" -e "s/r3/_3/" -e "s/r4/_4/" -e "s/r5/_5/" -e "s/r6/_6/" -e "s/r7/_7/" -e "s/r8/_8/" -e "s/r9/_9/")
+dst=/verif/seeded/$(echo $id | sed -e "s/r2/_2/" -e "s/r3/_3/" -e "s/r4/_4/" -e "s/r5/_5/" -e "s/r6/_6/" -e "s/r7/_7/" -e "s/r8/_8/" -e "s/r10/_10/" -e "s/r9/_9/")
 [ -f $wt/_seed/patch.diff ] || { echo "no patch in $wt/_seed"; exit 2; }
 scratch=$(mktemp -d /tmp/seedtry_XXXX)
 rsync -a --exclude .git --exclude __pycache__ --exclude _seed --exclude '*.ipynb' /repo/ $scratch/repo/
